@@ -21,7 +21,7 @@ import (
 func init() {
 	Registry["C10"] = &Check{
 		Scenarios: c10Scenarios,
-		Rule: "message flag bits P and T rotate with the position in the history; server side: every history of <=4 (thorough 5) peer messages over {acceptable CER, CER without common application, retransmitted CER, DWR, RAR (app 0), RAA, CCR (app 4), ACR (app 3)}; client side (sm.Client.NewConn): every history of <=4 (thorough 5) messages over {success CEA, failing CEA (result code rotating over 5010, 1001, 3004, 1, 4001, 5012), application-less CEA, a CER sent by the peer, DWR, RAR, RAA, CCA} sent in reply to the CER; application handlers registered by short name, by index and as catch-all (three configurations), each after attempts to register CER / CEA / DWR by name and by index; each history delivered in one segment and one segment per message; and histories (one shorter, with an unsolicited success CEA added to the alphabet) on an accepted connection served by a state machine that is also the handler of an sm.Client whose dial has completed. One deterministic schedule per history on the instrumented build (the quantifier is over histories; the scheduler supplies determinism and an exact notion of quiescence). Oracle: the sequence of application-handler invocations equals the gate model (invoked iff the handshake succeeded earlier on this connection), refused registrations never run, and the built-in CEA/DWA are still produced.",
+		Rule: "message flag bits P and T rotate with the position in the history; server side: every history of <=4 (thorough 5) peer messages over {acceptable CER, CER without common application, retransmitted CER, DWR, RAR (app 0), RAA, CCR (app 4), ACR (app 3)}; client side (sm.Client.NewConn): every history of <=4 (thorough 5) messages over {success CEA, failing CEA (result code rotating over 5010, 1001, 3004, 1, 4001, 5012), application-less CEA, a CER sent by the peer, DWR, RAR, RAA, CCA} sent in reply to the CER; application handlers registered by short name, by index and as catch-all (three configurations), each after attempts to register CER / CEA / DWR by name and by index; each history delivered in one segment and one segment per message; and histories (one shorter, with an unsolicited success CEA added to the alphabet) on an accepted connection served by a state machine that is also the handler of an sm.Client whose dial has completed. Plus scheduled scenarios (preemption bound 2, thorough 3): the peer never answers the CER and sends application requests half an interval before, exactly at and half an interval after the instant the client's handshake gives up. One deterministic schedule per history on the instrumented build (the quantifier is over histories; the scheduler supplies determinism and an exact notion of quiescence). Oracle: the sequence of application-handler invocations equals the gate model (invoked iff the handshake succeeded earlier on this connection), refused registrations never run, and the built-in CEA/DWA are still produced.",
 		Assume: []string{"single default schedule per history", "reference gate model {handshake done, closed}"},
 		QuickBudget: 120, ThoroughBudget: 1800,
 	}
@@ -161,6 +161,15 @@ func c10Scenarios(tier string) []*Scenario {
 		maxLen = 5
 	}
 	var out []*Scenario
+	tb := 2
+	if tier == "thorough" {
+		tb = 3
+	}
+	for _, cfg := range []string{"name", "index", "all"} {
+		for _, at := range []time.Duration{time.Second / 2, time.Second, 3 * time.Second / 2} {
+			out = append(out, c10TimeoutTie(cfg, at, tb))
+		}
+	}
 	for _, cfg := range []string{"name", "index", "all"} {
 		for _, oneSeg := range []bool{true, false} {
 			for _, first := range c10ServerAlpha {
@@ -505,4 +514,63 @@ func c10Client(r *SeqResult, cfg string, oneSeg bool, hists [][]string) {
 			r.Case = map[string]interface{}{"side": "client", "cfg": cfg, "oneseg": oneSeg, "history": hist}
 		}
 	}
+}
+
+// c10TimeoutTie: the peer never answers the CER and sends an application request exactly when the
+// client's handshake gives up (and a little earlier / later): every ordering of the handshake
+// goroutine's exit path, the reader and the peer up to the preemption bound. No application handler
+// may run - a dial that failed never completed a CER/CEA exchange.
+var c10tie *c10Run
+var c10tieDial struct {
+	returned bool
+	err      error
+}
+
+func c10TimeoutTie(cfg string, at time.Duration, bound int) *Scenario {
+	body := func() {
+		run := &c10Run{}
+		c10tie = run
+		c10tieDial.returned, c10tieDial.err = false, nil
+		conn := vnet.NewConn("C")
+		conn.Pieces = 1
+		settings := &sm.Settings{OriginHost: "cli", OriginRealm: "test", VendorID: 13, ProductName: "prod",
+			HostIPAddresses: []datatype.Address{datatype.Address(net.ParseIP("10.0.0.2"))}}
+		mach := sm.New(settings)
+		c10Register(mach, cfg, run)
+		cli := &sm.Client{Handler: mach, Dict: dict.Default, MaxRetransmits: 0, RetransmitInterval: time.Second,
+			AuthApplicationID: []*diam.AVP{diam.NewAVP(avp.AuthApplicationID, avp.Mbit, 0, datatype.Unsigned32(4))}}
+		vs.GoNamed("peer", true, func() {
+			p := &Peer{C: conn}
+			if cer := p.Next(); cer == nil {
+				return
+			}
+			vs.TimeSleep(at)
+			vs.Event("peer: application requests without having answered the CER")
+			conn.Deliver(c10Msg("rar", 1))
+			vs.Yield("env")
+			conn.Deliver(c10Msg("ccr", 2))
+		})
+		_, err := cli.NewConn(conn, "peer")
+		c10tieDial.returned, c10tieDial.err = true, err
+	}
+	check := func(s *vs.Sched) string {
+		var v []string
+		if !c10tieDial.returned {
+			v = append(v, "Client.NewConn never returned")
+		} else if c10tieDial.err == nil {
+			v = append(v, "the dial succeeded although the peer never sent a CEA")
+		}
+		if len(c10tie.invoked) > 0 {
+			v = append(v, fmt.Sprintf("application handlers ran (%v) on a connection whose peer never answered the CER (the dial timed out)", c10tie.invoked))
+		}
+		if len(c10tie.forbidden) > 0 {
+			v = append(v, fmt.Sprintf("handlers whose registration must be refused ran: %v", c10tie.forbidden))
+		}
+		for _, p := range s.Panics() {
+			v = append(v, "panic: "+p)
+		}
+		return strings.Join(v, " | ")
+	}
+	return &Scenario{Name: fmt.Sprintf("client-timeout-tie/%s/requests-at-%v", cfg, at), Body: body, Check: check, Bound: bound, Horizon: 4 * time.Second,
+		Outcome: func(s *vs.Sched) string { return fmt.Sprint(c10tie.invoked, c10tieDial.err) }}
 }
